@@ -119,8 +119,14 @@ def handle (toks : List String) : String :=
       match fmt, op with
       | "dict", "exp" => pure (showDict (treeToDict o sep anc t))
       | "dict", "rt" => pure (showOptTree (dictToTree sep (treeToDict o sep anc t)))
-      | "rows", "exp" => pure (showFrame (frame (treeToRows o sep anc t)))
-      | "rows", "rt" => pure (showOptTree (rowsToTree sep (frame (treeToRows o sep anc t))))
+      | "rows", "exp" =>
+        let lib ← kv head "lib"
+        let mk := if lib == "polars" then polarsFrame else frame
+        pure (showFrame (mk (treeToRows o sep anc t)))
+      | "rows", "rt" =>
+        let lib ← kv head "lib"
+        let mk := if lib == "polars" then polarsFrame else frame
+        pure (showOptTree (rowsToTree sep (mk (treeToRows o sep anc t))))
       | "nested", "exp" => pure (match treeToNested o anc t with | none => "rej" | some x => showNested x)
       | "nested", "rt" => pure (showOptTree ((treeToNested o anc t).bind (nestedToTree o.nameKey)))
       | _, _ => none
